@@ -172,11 +172,11 @@ func init() {
 			return VerifyOpts{OnlyKinds: []string{"pre", "post", "frame", "inv-init", "inv-pres", "cover", "call"}, PathCovers: true}
 		},
 		Extra: func(e *Engine, tier string) []*FuncResult {
-			return []*FuncResult{e.refKindsResult(), e.parserDeclaresResult(), e.parserRefsResult()}
+			return []*FuncResult{e.refKindsResult(), e.nameWritersResult(), e.parserDeclaresResult(), e.parserRefsResult()}
 		},
 		Assumptions: []string{
-			"scope (1) name-changing transformations: rename_object (one selection predicate - package exact, name case-insensitive - for the object, references and constant references; entry point kept in step), name prefixing (the same prefix on objects, references, constant references, discriminator mappings, the mapping copy kept in hints, enum/struct positions; entry point kept in step), duplicate_object (the copy is registered under the new name with a matching SelfRef; the original is kept), replace_reference.processRef, disjunction_to_type (the reference returned names the object that was registered); (2) allowed_objects: the closures of FilterSchemas (reference followed => added to the allow list; kept objects are exactly the listed ones) with Schemas.Locate; (3) the shared Visitor from VisitType down is VERIFIED (dispatch by kind, callback delegation, descent into every nested type, results stored in place, registry of new objects); VisitSchemas is assumed (same length, fresh schemas, package/metadata/entry point carried over); (4) structural obligations: the visitors of rename_object, name prefixing and allowed_objects handle every reference-carrying kind of ast.Type (from its declaration), and every callback of these visitors is under contract; (5) parsers, structural obligations over go/ssa: (jsonschema, openapi) in every function from which declareDefinition is reachable the error of such a call is propagated or tested against a sentinel the package never produces; (jsonschema, simplecue) on every path to ast.NewRef(pkg, name) and to the store into Schema.EntryPoint the same SSA value `name` was declared (declareDefinition / declareObject / AddObject under that name), or Objects.Has(name) held, or pkg was found different from the schema's package; the declaring function returns a nil error only after AddObject under its name parameter or behind its `already recorded` test",
-			"NOT covered: OpenAPI $ref resolution (walkRef declares nothing: refs other than #/components/schemas/<name> dangle), what the CUE library considers a reference, unspec, the transitive-closure fixpoint of allowed_objects as a whole, composition of a complete language chain (per-pass contracts only)",
+			"scope (1) name-changing transformations: rename_object (one selection predicate - package exact, name case-insensitive - for the object, references and constant references; entry point kept in step), name prefixing (the same prefix on objects, references, constant references, discriminator mappings, the mapping copy kept in hints, enum/struct positions; entry point kept in step), duplicate_object (the copy is registered under the new name with a matching SelfRef; the original is kept), replace_reference.processRef, disjunction_to_type (the reference returned names the object that was registered); (2) allowed_objects: the closures of FilterSchemas (reference followed => added to the allow list; kept objects are exactly the listed ones) with Schemas.Locate; (3) the shared Visitor from VisitType down is VERIFIED (dispatch by kind, callback delegation, descent into every nested type, results stored in place, registry of new objects); VisitSchemas is assumed (same length, fresh schemas, package/metadata/entry point carried over); (4) structural obligations: every function of the compiler package that writes an object's name is classified (renames / creates); the visitors of rename_object, name prefixing, unspec and allowed_objects handle every reference-carrying kind of ast.Type (from its declaration), every callback of these visitors is under contract, a renaming pass writes Schema.EntryPoint; unspec's lookup (newNameFor) and its two callbacks are under functional contracts; (5) parsers, structural obligations over go/ssa: (jsonschema, openapi) in every function from which declareDefinition is reachable the error of such a call is propagated or tested against a sentinel the package never produces; (jsonschema, simplecue) on every path to ast.NewRef(pkg, name) and to the store into Schema.EntryPoint the same SSA value `name` was declared (declareDefinition / declareObject / AddObject under that name), or Objects.Has(name) held, or pkg was found different from the schema's package; the declaring function returns a nil error only after AddObject under its name parameter or behind its `already recorded` test",
+			"NOT covered: OpenAPI $ref resolution (walkRef declares nothing: refs other than #/components/schemas/<name> dangle), what the CUE library considers a reference, the transitive-closure fixpoint of allowed_objects as a whole, composition of a complete language chain (per-pass contracts only)",
 			"map index types are visited by VisitMap; reference positions inside hints other than the discriminator mapping copy are not modelled",
 		},
 	}
